@@ -1463,7 +1463,7 @@ def natural_loop(body, h):
     return loop
 
 
-def for_loop_handles_every_element(body, s_next, t_next, handler_blocks):
+def for_loop_handles_every_element(body, s_next, t_next, handler_blocks, exit_ok=None):
     """`for x in it { .. }` (desugared: loop { match it.next() { None => break, Some(x) => .. } }): the loop is left only
     through the None edge of the switch on next()'s result, and every way from the Some edge back to `next` passes one
     of `handler_blocks` (a push, a call of the storing closure, an inner loop): no element is skipped."""
@@ -1472,7 +1472,7 @@ def for_loop_handles_every_element(body, s_next, t_next, handler_blocks):
     sw = body.blocks[nb]["term"]
     if sw["k"] != "switch" or nb not in cyc:
         return False
-    exits = [(x, y) for x in cyc for y in body.succ[x] if y not in cyc and body.blocks[y]["term"]["k"] != "unreachable"]
+    exits = [(x, y) for x in cyc for y in body.succ[x] if y not in cyc and body.blocks[y]["term"]["k"] != "unreachable" and not (exit_ok is not None and x != nb and exit_ok(y))]
     if not exits or not all(x == nb for x, y in exits):
         return False
     inside = [y for y in body.succ[nb] if y in cyc]
